@@ -66,7 +66,8 @@ def check_case(acc, arch, params, st=None, history=None):
     st = build_state("mixed", arch, params) if st is None else st
     n = arch[0]
     D = 2 ** n
-    space = tbits(n)
+    from ..common import space_of
+    space = space_of(st, n)
     lam, mu = split_purif(params[0], arch), split_purif(params[1], arch)
     ref, ld = R.rho_ref_scaled(lam, mu)  # scaled reference, log-diagonal
     scale = np.exp(0.5 * (ld[:, None] + ld[None, :]))
@@ -143,7 +144,7 @@ def stateful_seq(arch):
     sizes = net_sizes("mixed", arch)
     sl = aux_bias_slice(arch)
     seq = []
-    for q in range(5):
+    for q in range(7):
         ps = [pattern(n, q, r) for r, n in enumerate(sizes)]
         for t in range(sl.start, sl.stop):
             ps[1][t] = 0.0
